@@ -11,6 +11,25 @@ func init() {
 	vHarnesses["VerifC01Mixed"] = VerifC01Mixed
 	vHarnesses["VerifC01Canary"] = VerifC01Canary
 	vHarnesses["VerifC01Deep"] = VerifC01Deep
+	vHarnesses["VerifC01Seq"] = VerifC01Seq
+}
+
+// VerifC01Seq: longer arrays (up to N) whose elements are numbers or one-element arrays, so
+// that replaced scalars, descents into containers and trailing context meet in one list.
+func VerifC01Seq() {
+	n := vParam("N", 3)
+	mk := func() jsonArray {
+		a := make(jsonArray, vChoice(n+1))
+		for i := range a {
+			if vChoice(2) == 1 {
+				a[i] = jsonArray{vNum()}
+			} else {
+				a[i] = vNum()
+			}
+		}
+		return a
+	}
+	vC01Check(mk(), mk(), vOptChoice(vParam("OPTS", 1)), "c01.seq")
 }
 
 // vSmallObj: object over keys a,b,c, each absent or a number.
